@@ -152,10 +152,17 @@ def _flat(v):
     return v, None
 
 
-def check_kernels(repo, res, names, rule_v="R-NUM(value)", rule_d1="R-NUM(d1)", rule_d2="R-NUM(d2)"):
+def check_kernels(repo, res, names, rule_v="R-NUM(value)", rule_d1="R-NUM(d1)", rule_d2="R-NUM(d2)", tier="quick"):
     """-> number of (kernel, case, method, prediction form) interpretations"""
     n = 0
-    yhat0 = [1.2, 2.6, 3.1]
+    points = [[1.2, 2.6, 3.1]] + ([[0.4, 7.5, 2.0], [3.3, 0.9, 11.0]] if tier == "thorough" else [])
+    for yhat0 in points:
+        n += _check_kernels_at(repo, res, names, rule_v, rule_d1, rule_d2, yhat0, "" if yhat0 == points[0] else "@%s" % (yhat0,))
+    return n
+
+
+def _check_kernels_at(repo, res, names, rule_v, rule_d1, rule_d2, yhat0, suffix):
+    n = 0
     for name in names:
         kcls = repo.cls(M.M_LOSSTYPE, name)
         fl = {m: repo.resolve_method(kcls, m) for m in ("loss", "diff_loss", "diff2Loss")}
@@ -216,12 +223,12 @@ def check_kernels(repo, res, names, rule_v="R-NUM(value)", rule_d1="R-NUM(d1)", 
             if f is None:
                 continue
             if und:
-                res.undecided(rule, f, "constructed-and-evaluated", "outside the modelled subset: %s" % und)
+                res.undecided(rule, f, "constructed-and-evaluated" + suffix, "outside the modelled subset: %s" % und)
                 continue
             what = {"loss": "minus the summed reference log-density" if name != "Square" else "the sum of squared residuals",
                     "diff_loss": "the first derivative of the reference loss in each prediction",
                     "diff2Loss": "the second derivative of the reference loss in each prediction"}[m]
-            res.check(not bad[m], rule, f, "constructed-and-evaluated",
+            res.check(not bad[m], rule, f, "constructed-and-evaluated" + suffix,
                       "%s.%s, on kernels built by the real constructor for every spread form (scalar, per-observation, integer-typed, single-column) and flat / single-column predictions (%d runs), is %s"
                       % (name, m, done[m], what), "; ".join(bad[m][:2]), node=f.node)
     # the Square loss with observation weights: flat, single-column and integer-typed weight arrays
@@ -257,8 +264,8 @@ def check_kernels(repo, res, names, rule_v="R-NUM(value)", rule_d1="R-NUM(d1)", 
                 und = "%s: %s" % (wl, e)
         n += k
         if und:
-            res.undecided(rule_v, f, "weighted", "outside the modelled subset: %s" % und)
+            res.undecided(rule_v, f, "weighted" + suffix, "outside the modelled subset: %s" % und)
         else:
-            res.check(not bad, rule_v, f, "weighted", "Square.loss with observation weights (flat, single-column, integer-typed, with a zero) is the sum of squared weighted residuals; "
+            res.check(not bad, rule_v, f, "weighted" + suffix, "Square.loss with observation weights (flat, single-column, integer-typed, with a zero) is the sum of squared weighted residuals; "
                       "negative and all-zero weights are refused (%d runs)" % k, "; ".join(bad[:2]), node=f.node)
     return n
